@@ -14,17 +14,32 @@ OPS = ["shell", "exec_out", "streaming_shell", "root", "reboot", "list", "stat",
 
 
 # ------------------------------------------------------------------------------------------ generation
-def gen_step(rng, i, ops=OPS, big=False, maxdata=None, fails=False):
+def gen_step(rng, i, ops=OPS, big=False, maxdata=None, fails=False, dirs=False):
     op = rng.choice(ops)
     sd = "%08x" % rng.getrandbits(32)
+    if dirs and op == "push" and rng.random() < 0.3:
+        # a directory: regular files (some multi-WRTE), sometimes a sub-directory (never pushed) and, with fails, an entry that cannot be opened
+        files = [["f%d" % k, rng.choice([0, 1, 300, 5000, 9000]), "file"] for k in range(rng.randint(1, 4))]
+        if rng.random() < 0.3:
+            files.append(["sub", 10, "subdir"])
+        if fails and rng.random() < 0.4:
+            files.insert(rng.randrange(len(files) + 1), ["gone", 0, "dangling"])
+        return {"op": "pushdir", "path": "/pd%d" % i, "files": files, "seed": sd, "mtime": rng.choice([0, 5, 1234567890]), "mode": 0o100644 if rng.random() < 0.7 else 0o100600}
+    if fails and op in ("list", "stat", "pull") and rng.random() < 0.08:
+        # the device's sync service dies on this request: CLSE instead of a reply
+        return {"op": op, "path": "/dies%d" % i, "dies": True, "seed": sd, "n": 0, "size": 10, "dest": "bytesio", "cb": None}
     if op in ("shell", "exec_out", "streaming_shell"):
         cmd = "c%d" % i
         if maxdata is not None and maxdata <= 8192 and rng.random() < 0.12:
             # a command about as long as the device's maxdata (the OPEN payload is service + ':' + command + NUL)
             n = maxdata + rng.choice([-9, -8, -7, -6, -5, -1, 0, 3])
             cmd = ("c%d " % i) + "x" * (n - len("c%d " % i))
-        return {"op": op, "cmd": cmd, "decode": rng.random() < 0.5, "cls": rng.choice(gen.CONTENT_CLASSES[:6]), "seed": sd,
-                "take": (rng.choice([None, None, None, 0, 1, 2]) if op == "streaming_shell" else None)}
+        st = {"op": op, "cmd": cmd, "decode": rng.random() < 0.5, "cls": rng.choice(gen.CONTENT_CLASSES[:6]), "seed": sd,
+              "take": (rng.choice([None, None, None, 0, 1, 2]) if op == "streaming_shell" else None)}
+        if fails and rng.random() < 0.06:
+            st["late_open"] = True      # the device answers this OPEN only after the host gave up
+            st["late_stall"] = rng.choice([None, "eof"])    # what the idle transport does meanwhile: raise its timeout error / return no bytes
+        return st
     if op == "root":
         return {"op": op, "cls": rng.choice(["empty", "ascii"]), "seed": sd}
     if op == "reboot":
@@ -53,10 +68,10 @@ def gen_step(rng, i, ops=OPS, big=False, maxdata=None, fails=False):
     raise ValueError(op)
 
 
-def gen_scenario(rng, nsteps=None, ops=OPS, big=False, fails=False, long_cmds=False):
+def gen_scenario(rng, nsteps=None, ops=OPS, big=False, fails=False, long_cmds=False, dirs=False):
     n = nsteps if nsteps is not None else rng.randint(1, 8)
     dims = gen.common_dims(rng)
-    return {"dims": dims, "steps": [gen_step(rng, i, ops, big, maxdata=dims["maxdata"] if long_cmds else None, fails=fails) for i in range(n)]}
+    return {"dims": dims, "steps": [gen_step(rng, i, ops, big, maxdata=dims["maxdata"] if long_cmds else None, fails=fails, dirs=dirs) for i in range(n)]}
 
 
 def blob(seed, size):
@@ -98,12 +113,26 @@ class Runner(object):
     # so that the same oracles serve plain calls, scheduled threads and asyncio tasks
     def run_step(self, i, step):
         name, args, kw, ctx = getattr(self, "prep_" + step["op"])(i, step)
+        if step.get("late_open"):
+            self.sim.mute_next_opens = 1
+            kw = dict(kw, read_timeout_s=1.0, transport_timeout_s=0.5)
+            self.sess.core.stall = step.get("late_stall")
         out = self.sess.call(name, *args, **kw)
+        if step.get("late_open"):
+            self.sess.core.stall = None
+            self.sim.mute_streams.clear()       # the late answers arrive during whatever the host does next
         return out, getattr(self, "judge_" + step["op"])(step, ctx, out)
 
     async def arun_step(self, i, step):
         name, args, kw, ctx = getattr(self, "prep_" + step["op"])(i, step)
+        if step.get("late_open"):
+            self.sim.mute_next_opens = 1
+            kw = dict(kw, read_timeout_s=1.0, transport_timeout_s=0.5)
+            self.sess.core.stall = step.get("late_stall")
         out = await self.sess.acall(name, *args, **kw)
+        if step.get("late_open"):
+            self.sess.core.stall = None
+            self.sim.mute_streams.clear()
         return out, getattr(self, "judge_" + step["op"])(step, ctx, out)
 
     def _v(self, prop, mech, detail):
@@ -134,6 +163,10 @@ class Runner(object):
 
     def judge_shell(self, step, chunks, out):
         op = step["op"]
+        if step.get("late_open"):
+            if out.ok:
+                return [self._v("C11", "returned-without-reply", "%s(%s) returned %s although the device had not answered its OPEN" % (op, step["cmd"], out.brief(60)))]
+            return [] if out.exc_name() in ("AdbTimeoutError", "TcpTimeoutException") else self._raised("C11", step, out)
         if not out.ok and step.get("timeout_s") is not None and out.exc_name() == "AdbTimeoutError":
             return []          # a whole-command limit on a slow link may legitimately expire
         if not out.ok:
@@ -186,11 +219,15 @@ class Runner(object):
                 entries.append((rng.choice([0, 1, 0o40755, 0x80000000, wire.M32]), rng.choice([0, 5, 0x7FFFFFFF, 0x80000000, wire.M32]), rng.getrandbits(32), name))
         plan = self.sim.sync_plan
         plan.lists[step["path"].encode()] = entries
+        if step.get("dies"):
+            plan.die_on.add(step["path"].encode())
         if step.get("split"):
             plan.split_mode = step["split"]
         return "list", (step["path"],), {}, entries
 
     def judge_list(self, step, entries, out):
+        if step.get("dies"):
+            return self._judge_dies(step, out)
         if not out.ok:
             return self._raised("C09", step, out)
         got = [(f.mode, f.size, f.mtime, bytes(f.filename)) for f in out.value]
@@ -206,11 +243,23 @@ class Runner(object):
             triple = tuple(rng.choice([0, 1, 0o100644, 0x7FFFFFFF, 0x80000000, wire.M32, rng.getrandbits(32)]) for _ in range(3))
         plan = self.sim.sync_plan
         plan.stats[step["path"].encode()] = triple
+        if step.get("dies"):
+            plan.die_on.add(step["path"].encode())
         if step.get("split"):
             plan.split_mode = step["split"]
         return "stat", (step["path"],), {}, triple
 
+    def _judge_dies(self, step, out):
+        # the device closed the stream without a reply: whatever the call raises, it has nothing to return
+        if out.ok:
+            return [self._v("C11", "returned-without-reply", "%s(%s) returned %s although the device closed the stream without answering" % (step["op"], step["path"], out.brief(60)))]
+        if out.kind != "exc":
+            return self._raised("C11", step, out)
+        return []
+
     def judge_stat(self, step, triple, out):
+        if step.get("dies"):
+            return self._judge_dies(step, out)
         if not out.ok:
             return self._raised("C09", step, out)
         if tuple(out.value) != triple:
@@ -225,6 +274,8 @@ class Runner(object):
         plan = self.sim.sync_plan
         plan.files[path] = content
         plan.stats[path] = (0o100644, len(content), 1500000000)
+        if step.get("dies"):
+            plan.die_on.add(path)
         rec = step.get("rec", "64k")
         plan.recv_record_sizes[path] = {"64k": [65536], "one": [1] if len(content) <= 600 else [997], "random": [rng.randint(1, 65536) for _ in range(7)], "alt": [1, 65536],
                                         "zeros": [0, rng.randint(1, 3000), 0, 65536]}[rec]
@@ -245,6 +296,8 @@ class Runner(object):
 
     def judge_pull(self, step, ctx, out):
         content, dest, cb, cb_calls = ctx
+        if step.get("dies"):
+            return self._judge_dies(step, out)
         if isinstance(dest, FailingIO):
             # the local write failed: the call must raise that error (a short file as success would be wrong), nothing else is demanded here
             if out.ok and dest.failed:
@@ -311,6 +364,42 @@ class Runner(object):
             if sum(c[1] for c in cb_calls) != len(content) or any(c[0] != step["path"] or c[2] != len(content) for c in cb_calls):
                 v.append(self._v("C07", "callback", "callback saw %r for a %d-byte source" % (cb_calls[:5], len(content))))
         return v
+
+    # ---- push of a directory
+    def prep_pushdir(self, i, step):
+        d = os.path.join(self.tmpdir(), "pd%d" % i)
+        if os.path.isdir(d):
+            shutil.rmtree(d)
+        os.mkdir(d)
+        expect = {}
+        for name, size, kind in step["files"]:
+            p = os.path.join(d, name)
+            if kind == "file":
+                content = blob(step["seed"] + name, size)
+                with open(p, "wb") as f:
+                    f.write(content)
+                expect[(step["path"] + "/" + name).encode()] = content
+            elif kind == "dangling":
+                os.symlink(os.path.join(d, "no-such-target"), p)
+            else:
+                os.mkdir(p)
+                with open(os.path.join(p, "inner"), "wb") as f:
+                    f.write(b"must not be pushed")
+        self.sim.scripts[b"shell:mkdir " + step["path"].encode()] = []
+        plan = self.sim.sync_plan
+        t0 = self.sess.clock.now()
+        return "push", (d, step["path"]), {"st_mode": step.get("mode", 0o100644), "mtime": step.get("mtime", 0)}, (expect, t0, len(plan.pushed))
+
+    def judge_pushdir(self, step, ctx, out):
+        expect, t0, n_before = ctx
+        t1 = self.sess.clock.now()
+        dangling = any(k == "dangling" for (_, _, k) in step["files"])
+        if not out.ok:
+            if dangling and out.exc_name() in ("FileNotFoundError", "OSError", "PermissionError"):
+                return []
+            return [self._v("C07", "raised:%s" % (out.exc_name() or out.kind), "push of a directory raised %s" % out.brief(200))]
+        mine = sorted((p for p in self.sim.sync_plan.pushed[n_before:] if p["path"].startswith(step["path"].encode() + b"/")), key=lambda p: p["path"])
+        return check_pushed(mine, sorted(expect.items()), step.get("mode", 0o100644), step.get("mtime", 0), (t0, t1), self._v)
 
     # compatibility with the checks written against the first version of this class
     def do_push(self, i, step):
